@@ -145,7 +145,7 @@ int main(int argc, char **argv) {
             }
     }
     if (a.dump_index >= 0) ok = true;
-    if (ok) ok = run_cases(a, ev, "c02-histories", a.n(40000, 400000), 100, gen, run);
+    if (ok) ok = run_cases(a, ev, "c02-histories", a.n(60000, 500000), 100, gen, run);
     if (a.dump_index >= 0) return 0;
     ev.write(a.out);
     return ok ? 0 : 1;
